@@ -282,6 +282,8 @@ int nev_prepare_argc_argv(program * prog, const char * entry_name, unsigned int 
         }
         else if (prog->params[i].type == OBJECT_STRING_ARR)
         {
+            /* a second prepare of the same entry replaces the previous arguments */
+            object_str_arr_delete(prog->params[i].string_arr_value);
             prog->params[i].string_arr_value = object_str_arr_new(argc, argv);
         }
         else
